@@ -12,8 +12,10 @@ translator extracts from the source (`Gen.GenWrap.sendProg`, `throwProg`); the f
 * C03: `generator_guard_full_proved` - the full clause, `throw` included (through `throw_checked : ThrowChecked`, a `decide` over
   the translated `throw`); `generator_guard` is the former partial form, kept as a corollary.
 * C04: `transparent_when_conforming` - no guard on the interaction any more (`send` / `next` on a finished generator and a
-  failed priming are transparent: `finished_send_is_bare_stop`, `failed_priming_keeps_wrapper`); the guard on the spelling of
-  the annotation stays (`transparent_full`, refuted by `transparent_fails_spelling`: open finding `generatorAnnotationSpelling`).
+  failed priming are transparent: `finished_send_is_bare_stop`, `failed_priming_keeps_wrapper`); the guard that is left says that
+  the annotation is an object, not a string (`supportedSpelling`; `transparent_full` is refuted by `transparent_fails_spelling`: open
+  finding `generatorAnnotationSpelling`, narrowed to string annotations - the `collections.abc` spellings are accepted since the repair
+  of `_set_and_check_return_types`: `fixed_collections_abc_spelling`).
 * creation (`_set_and_check_return_types`): `creation_sound`, `creation_complete`, `creation_guard`, `accepted_has_meaning`.
 -/
 namespace PedVerif.GenWrap
@@ -21,11 +23,10 @@ open PedVerif.Gen.GenWrap
 
 /-! ## creation -/
 
-private theorem str_not_accepted : ["typing.Generator", "typing.Iterable", "typing.Iterator"].contains "<str>" = false := by decide
+private theorem str_not_accepted : supportedBases.contains "<str>" = false := by decide
 
 private theorem accepted_iff (a : Ann) :
-    acceptedBases.contains a.seenBase = true ↔
-      a.quoted = false ∧ (a.base = "typing.Generator" ∨ a.base = "typing.Iterable" ∨ a.base = "typing.Iterator") := by
+    acceptedBases.contains a.seenBase = true ↔ a.quoted = false ∧ supportedBases.contains a.base = true := by
   rw [cfg_creation.1]
   unfold Ann.seenBase
   cases hq : a.quoted
@@ -38,7 +39,7 @@ private theorem default_types : defaultTypes = ⟨.none, .none, .none⟩ := by
 /-- what the library accepts and what it puts into the slots -/
 theorem setTypes_eq (a : Ann) :
     setTypes a =
-      if a.quoted = false ∧ (a.base = "typing.Generator" ∨ a.base = "typing.Iterable" ∨ a.base = "typing.Iterator") then
+      if a.quoted = false ∧ supportedBases.contains a.base = true then
         match a.args with
         | [y] => some ⟨y, .none, .none⟩
         | [y, s, r] => some ⟨y, s, r⟩
@@ -60,7 +61,7 @@ theorem setTypes_eq (a : Ann) :
     | _ :: _ :: _ :: _ :: rest =>
       have : (rest.length + 1 + 1 + 1 + 1) ≠ 1 ∧ (rest.length + 1 + 1 + 1 + 1) ≠ 3 := by omega
       simp [cfg_creation.2.2.2.1 _ this.1 this.2, cfg_creation.2.2.2.2.1]
-  · have h' : ¬(a.quoted = false ∧ (a.base = "typing.Generator" ∨ a.base = "typing.Iterable" ∨ a.base = "typing.Iterator")) :=
+  · have h' : ¬(a.quoted = false ∧ supportedBases.contains a.base = true) :=
       fun hh => h ((accepted_iff a).2 hh)
     have hb : acceptedBases.contains a.seenBase = false := by simpa using h
     simp only [hb, Bool.not_false, ↓reduceIte, h']
@@ -78,44 +79,63 @@ theorem creation_sound (a : Ann) (ts ts' : Types) (h : setTypes a = some ts') (h
     · simp at h
   · simp at h
 
-/-- **creation is complete for the documented spelling** `typing.Generator[Y, S, R]` / `typing.Iterator[Y]` / `typing.Iterable[Y]` -/
-theorem creation_complete (a : Ann) (ts : Types) (hsp : typingSpelling a = true) (hm : annMeaning a = some ts) :
+/-- every base `annMeaning` gives a meaning to is one the library accepts -/
+private theorem meaning_bases_supported (b : String) (h : generatorNames.contains b = true ∨ iteratorNames.contains b = true) :
+    supportedBases.contains b = true := by
+  simp only [generatorNames, iteratorNames, supportedBases, List.contains_cons, List.contains_nil, Bool.or_false, Bool.or_eq_true,
+    beq_iff_eq] at h ⊢
+  rcases h with (h | h) | (h | h | h | h) <;> simp [h]
+
+/-- **creation is complete for every supported spelling**: `typing.Generator[Y, S, R]` / `typing.Iterator[Y]` / `typing.Iterable[Y]`
+    and their `collections.abc` counterparts, i.e. every annotation object that means a generator type (not a string annotation) -/
+theorem creation_complete (a : Ann) (ts : Types) (hsp : supportedSpelling a = true) (hm : annMeaning a = some ts) :
     setTypes a = some ts := by
   rw [setTypes_eq]
-  unfold typingSpelling at hsp
-  simp only [Bool.and_eq_true, Bool.not_eq_eq_eq_not, Bool.not_true, List.contains_cons, List.contains_nil, Bool.or_false,
-    Bool.or_eq_true, beq_iff_eq] at hsp
-  have hb : a.quoted = false ∧ (a.base = "typing.Generator" ∨ a.base = "typing.Iterable" ∨ a.base = "typing.Iterator") := by
-    refine ⟨hsp.1, ?_⟩
-    rcases hsp.2 with h | h | h <;> simp [h]
-  simp only [hb, and_self, ↓reduceIte]
+  have hq : a.quoted = false := by simpa [supportedSpelling] using hsp
   unfold annMeaning at hm
   rcases hargs : a.args with _ | ⟨y, _ | ⟨s, _ | ⟨r, _ | ⟨q, rest⟩⟩⟩⟩ <;> simp only [hargs] at hm ⊢
   · simp at hm
-  · split at hm <;> simp_all
+  · split at hm
+    · rename_i hb
+      have hb' : supportedBases.contains a.base = true :=
+        meaning_bases_supported a.base (by simpa [Bool.or_eq_true, or_comm] using hb)
+      simp only [hq, hb', and_self, ↓reduceIte]; exact hm
+    · simp at hm
   · simp at hm
-  · split at hm <;> simp_all
+  · split at hm
+    · rename_i hb
+      have hb' : supportedBases.contains a.base = true := meaning_bases_supported a.base (Or.inl hb)
+      simp only [hq, hb', and_self, ↓reduceIte]; exact hm
+    · simp at hm
   · simp at hm
 
 /-- the arity `typing` itself enforces on Python 3.12 when the annotation object is built (`Generator[int]`,
     `Iterator[int, int, int]` raise TypeError in the `def` line): three or no arguments for `typing.Generator`, at most one otherwise -/
 def typingArityOK (a : Ann) : Bool :=
-  if a.base = "typing.Generator" then a.args.length == 3 || a.args.length == 0 else decide (a.args.length ≤ 1)
+  if generatorNames.contains a.base then a.args.length == 3 || a.args.length == 1 || a.args.length == 0 else decide (a.args.length ≤ 1)
 
-/-- every annotation that can exist and that the library accepts has a meaning, and it is what the slots hold: the guard
-    below therefore speaks about every wrapper the library ever builds -/
+/-- every well-formed annotation that the library accepts has a meaning, and it is what the slots hold: the guard
+    below therefore speaks about every wrapper the library ever builds (`typingArityOK`: the arity the type system demands - `typing`
+    enforces it when the annotation object is built, `types.GenericAlias` of the `collections.abc` classes does not) -/
 theorem accepted_has_meaning (a : Ann) (ts : Types) (h : setTypes a = some ts) (har : typingArityOK a = true) :
     annMeaning a = some ts := by
   rw [setTypes_eq] at h
   unfold typingArityOK at har
-  unfold annMeaning generatorNames iteratorNames
+  unfold annMeaning
   split at h
   · rename_i hb
+    have hgi : generatorNames.contains a.base = true ∨ iteratorNames.contains a.base = true := by
+      have := hb.2
+      simp only [generatorNames, iteratorNames, supportedBases, List.contains_cons, List.contains_nil, Bool.or_false, Bool.or_eq_true,
+        beq_iff_eq] at this ⊢
+      rcases this with h | h | h | h | h | h <;> simp [h]
     rcases hargs : a.args with _ | ⟨y, _ | ⟨s, _ | ⟨r, _ | ⟨q, rest⟩⟩⟩⟩ <;> simp only [hargs] at h har ⊢
     · simp at h
-    · rcases hb.2 with hbase | hbase | hbase <;> simp_all
+    · rcases hgi with hg | hi <;> simp_all
     · simp at h
-    · rcases hb.2 with hbase | hbase | hbase <;> simp_all
+    · rcases hgi with hg | hi
+      · simp_all
+      · cases hg : generatorNames.contains a.base <;> simp_all
     · simp at h
   · simp at h
 
@@ -131,8 +151,10 @@ theorem creation_guard (conf : Ty → V → Bool) (a : Ann) (script : List GStep
     rw [setTypes_eq] at hst
     split at hst
     · rename_i hb
+      have := hb.2
+      simp only [supportedBases, List.contains_cons, List.contains_nil, Bool.or_false, Bool.or_eq_true, beq_iff_eq] at this
       unfold annAdmitsGenerator generatorNames iteratorNames at hn
-      rcases hb.2 with h | h | h <;> simp [h] at hn
+      rcases this with h | h | h | h | h | h <;> simp [h] at hn
     · simp at hst
 
 /-! ## C03: the guard -/
@@ -558,7 +580,7 @@ def transparent_full : Prop :=
     shows the consumer the same object / the same StopIteration value / the same exception, and the body journals the
     same events (it receives exactly the sent objects and the thrown exceptions), as the undecorated generator. -/
 theorem transparent_when_conforming (conf : Ty → V → Bool) (a : Ann) (ts : Types) (script : List GStep) (ops : List Op)
-    (hm : annMeaning a = some ts) (hsp : typingSpelling a = true)
+    (hm : annMeaning a = some ts) (hsp : supportedSpelling a = true)
     (hc : allConforming conf ts (plainRun (Gen.fresh script) ops) = true) :
     callAndDrive conf a script ops = some (plainRun (Gen.fresh script) ops) := by
   have hts := creation_complete a ts hsp hm
@@ -592,19 +614,27 @@ theorem transparent_after_failed_priming :
 
 /-! ### where the full clause still fails (a region in which implementation and model agree) -/
 
-/-- finding `generatorAnnotationSpelling`: `collections.abc.Iterator[int]` and the string annotation `'Iterator[int]'`
-    mean the same as `typing.Iterator[int]`, but the call is refused -/
+/-- finding `generatorAnnotationSpelling` (what is left of it): the string annotation `'Iterator[int]'` means the same as
+    `typing.Iterator[int]`, but the call is refused -/
 theorem transparent_fails_spelling :
-    annMeaning ⟨"collections.abc.Iterator", [.int], false⟩ = some ⟨.int, .none, .none⟩ ∧
-    callAndDrive confC ⟨"collections.abc.Iterator", [.int], false⟩ [.yield_ ⟨.int, 1⟩ .nothing] [.next] = none ∧
     annMeaning ⟨"typing.Iterator", [.int], true⟩ = some ⟨.int, .none, .none⟩ ∧
     callAndDrive confC ⟨"typing.Iterator", [.int], true⟩ [.yield_ ⟨.int, 1⟩ .nothing] [.next] = none := by
   decide
 
-/-- **the full clause does not hold** (only because of the spelling of the annotation) -/
+/-- the `collections.abc` half of the finding is repaired: `collections.abc.Iterator[int]` / `collections.abc.Generator[int, str, None]`
+    behave like their `typing` spellings (instances of `transparent_when_conforming`, whose guard is now `supportedSpelling`) -/
+theorem fixed_collections_abc_spelling :
+    callAndDrive confC ⟨"collections.abc.Iterator", [.int], false⟩ [.yield_ ⟨.int, 1⟩ .nothing] [.next] =
+      some (plainRun (Gen.fresh [.yield_ ⟨.int, 1⟩ .nothing]) [.next]) ∧
+    callAndDrive confC ⟨"collections.abc.Generator", [.int, .str, .none], false⟩ [.yield_ ⟨.int, 1⟩ .nothing] [.next, .send ⟨.str, 4⟩] =
+      some (plainRun (Gen.fresh [.yield_ ⟨.int, 1⟩ .nothing]) [.next, .send ⟨.str, 4⟩]) ∧
+    supportedSpelling ⟨"collections.abc.Iterator", [.int], false⟩ = true := by
+  decide
+
+/-- **the full clause does not hold** (only because a string annotation is not evaluated) -/
 theorem transparent_full_false : ¬ transparent_full := by
   intro h
-  obtain ⟨hm, hnone, _, _⟩ := transparent_fails_spelling
+  obtain ⟨hm, hnone⟩ := transparent_fails_spelling
   have := h confC _ _ [.yield_ ⟨.int, 1⟩ .nothing] [.next] hm (by decide)
   rw [hnone] at this
   simp at this
@@ -616,7 +646,7 @@ example :
     let a : Ann := ⟨"typing.Generator", [.int, .str, .none], false⟩
     let script : List GStep := [.yield_ ⟨.int, 1⟩ .nothing, .yield_ ⟨.bool, 1⟩ .exc, .yield_ ⟨.int, 3⟩ .nothing]
     let ops : List Op := [.next, .send ⟨.str, 4⟩, .throw 9, .close, .close, .next]
-    annMeaning a = some ⟨.int, .str, .none⟩ ∧ typingSpelling a = true ∧
+    annMeaning a = some ⟨.int, .str, .none⟩ ∧ supportedSpelling a = true ∧
     allConforming confC ⟨.int, .str, .none⟩ (plainRun (Gen.fresh script) ops) = true ∧
     plainRun (Gen.fresh script) ops =
       [⟨.next, .got ⟨.int, 1⟩, [.yielded ⟨.int, 1⟩]⟩,
